@@ -8,6 +8,7 @@ LOCAL N  == INSTANCE BigNat
 LOCAL Z  == INSTANCE BigInt
 LOCAL NM == INSTANCE Num64
 LOCAL DB == INSTANCE Dbl
+LOCAL DU == INSTANCE CelDuration
 
 ConvErr == {"fnerr", "overflow"}
 
@@ -71,7 +72,7 @@ ToStringFn(v) ==
     [] v.t = "uint"  -> R(VStr(IntText(v.n)))
     [] v.t = "dbl"   -> D(R(VStr(<< >>)))
     [] v.t = "bytes" -> D(R(VStr(<< >>)))
-    [] v.t = "dur"   -> D(R(VStr(<< >>)))
+    [] v.t = "dur"   -> DU!ToStringDur(v)
     [] v.t = "ts"    -> D(R(VStr(<< >>)))
     [] v.t = "bool"  -> D(E(ConvErr \cup {"type"}))
     [] OTHER         -> E(ConvErr \cup {"type"})
